@@ -66,8 +66,8 @@ def obligations(tier):
         p4 = ["%d,%d,%d" % (s, a, b) for s in (3, 4, 6) for a in range(7) for b in range(7)]
     obs += [Ob("C09.step3", F, "step3", 400, part=p, what=w + " (3-atom blocks)") for p in p3]
     obs += [Ob("C09.step4", F, "step4", 500, part=p, what=w + " (4-atom blocks)") for p in p4]
-    for k in (0, 1):
-        obs.append(Ob("C09.loops", F, "loops", 400, part=str(k), what="while (0) / for (1) with 0, 1, 2 iterations: no read that is unassigned on some execution goes unreported"))
+    for k in (0, 1, 2, 3):
+        obs.append(Ob("C09.loops", F, "loops", 400, part=str(k), what="while (0) / for (1; 2, 3: the iterated list is assigned by the program, empty on one branch only) with 0, 1, 2 iterations: no read that is unassigned on some execution goes unreported"))
     cparts = ["0,0,1", "0,4,6", "1,0,2"] if tier == "quick" else ["%d,%d,%d" % (a, b, d) for a in range(4) for b in range(7) for d in range(7)]
     for cp in cparts:
         obs.append(Ob("C09.calls", F, "calls", 600, part=cp, what="def f(): A / if c: B; f() else: C; f() / D -- no read of the module-level x (inside f at either call, or outside) that is unassigned on some execution goes unreported"))
